@@ -326,7 +326,12 @@ class Engine:
             st.assume(lib.untok(self)(t_) == v.t)
             return Val(t_, STR)
         if isinstance(ty, ListT) and isinstance(v.ty, EmptyListT):
-            return Val(ty.empty(), ty)
+            r = Val(ty.empty(), ty)
+            if isinstance(ty.elt, (StrT, IntT)):
+                from . import lib
+                y = z3.FreshConst(ty.elt.sort(), "cy")
+                st.assume(z3.ForAll([y], lib.cnt_uf(self, ty)(r.t, y) == 0))
+            return r
         if isinstance(ty, BoolT):
             return Val(self.truthy(v), BOOL)
         raise Unsupported("cannot use %s as %s (%s) at line %s" % (v.ty, ty, what, getattr(node, "lineno", "?")))
@@ -928,7 +933,7 @@ class Engine:
                 decl = self.c.ghost.get(tgt.id)
             if isinstance(val.ty, EmptyListT):
                 if decl is not None and isinstance(decl, ListT):
-                    val = Val(decl.empty(), decl)
+                    val = self.coerce(val, decl, st, node, "assignment to " + tgt.id)
             elif decl is not None and decl != val.ty:
                 val = self.coerce(val, decl, st, node, "assignment to " + tgt.id)
             st.env[tgt.id] = val
@@ -967,6 +972,11 @@ class Engine:
                 i = self.index_list(base, tgt.slice, st, node)
                 v = self.coerce(val, bty.elt, st, node, "list element")
                 return self.assign_target(tgt.value, Val(bty.mk(z3.Store(bty.arr(base.t), i, v.t), bty.len(base.t)), bty), st, node)
+            if isinstance(bty, TupleT) and isinstance(tgt.slice, ast.Constant) and isinstance(tgt.slice.value, int):
+                # a fixed-length list used as a record (e.g. [first, last]): functional update of one component
+                k = tgt.slice.value
+                v = self.coerce(val, bty.elts[k], st, node, "record component")
+                return self.assign_target(tgt.value, Val(bty.mk([v.t if j == k else bty.get(base.t, j) for j in range(len(bty.elts))]), bty), st, node)
             if isinstance(bty, MapT):
                 k = self.coerce(self.ev(tgt.slice, st), bty.k, st, node, "map key")
                 v = self.coerce(val, bty.v, st, node, "map value")
@@ -1077,6 +1087,7 @@ class Engine:
                 self.anchor_hits.add(anchor)
                 for label, e in claims.items():
                     self.oblige_spec(st, "assert", label, e, s)
+                    st.assume(self.spec_bool(e, st))  # proved at this point, usable afterwards
 
     def run_ghost(self, code, st):
         tree = ast.parse(code.strip() if "\n" not in code.strip() else _dedent(code))
@@ -1224,6 +1235,11 @@ class Engine:
     def st_With(self, s, st):
         txt = ast.unparse(s.items[0].context_expr)
         if txt.startswith(("timers(", "step_timer(")):
+            return self.exec_block(s.body, st)
+        if txt.startswith("open(") and s.items[0].optional_vars is not None and isinstance(s.items[0].optional_vars, ast.Name):
+            # an output file handle used only by pickle.dump / write calls inside the body
+            st.env[s.items[0].optional_vars.id] = NoneV
+            self.assumptions_used.add("`with open(path, mode) as f` opens a fresh output file (I/O errors not modelled)")
             return self.exec_block(s.body, st)
         raise Unsupported("with-statement %s at line %s" % (txt, s.lineno))
 
@@ -1528,11 +1544,12 @@ class Engine:
                 out.append((s2, "next", None))
             else:
                 out.append((s2, kind, payload))
-        x = h.copy()
-        x.assume(z3.Not(c))
-        for e in lc.exit_facts:
-            x.assume(self.spec_bool(e, x))
-        out.append((x, "next", None))
+        if not z3.is_true(z3.simplify(c)):
+            x = h.copy()
+            x.assume(z3.Not(c))
+            for e in lc.exit_facts:
+                x.assume(self.spec_bool(e, x))
+            out.append((x, "next", None))
         return out
 
     # ---- driver ----------------------------------------------------------------------------------
